@@ -28,6 +28,8 @@ pub enum REv {
 #[derive(Debug, Clone)]
 pub enum WEv {
     Accept(usize),
+    /// accepts octets, in whatever portions they are offered, until this many have been taken in total; then the next entry applies
+    Budget(usize),
     Pending,
     Sleep(u64),
     Err,
@@ -147,6 +149,27 @@ impl AsyncWrite for ScriptStream {
                 me.sh.lock().unwrap().received.extend_from_slice(&buf[..n]);
                 Poll::Ready(Ok(n))
             }
+            Some(WEv::Budget(_)) => {
+                // how the caller chops its writes does not matter: exactly the budgeted number of octets gets through
+                loop {
+                    match me.w.front_mut() {
+                        Some(WEv::Budget(rem)) if *rem == 0 => {
+                            me.w.pop_front();
+                        }
+                        Some(WEv::Budget(rem)) => {
+                            let n = (*rem).min(buf.len());
+                            *rem -= n;
+                            me.sh.lock().unwrap().received.extend_from_slice(&buf[..n]);
+                            return Poll::Ready(Ok(n));
+                        }
+                        Some(WEv::Err) => return Poll::Ready(Err(std::io::Error::new(std::io::ErrorKind::BrokenPipe, "broken pipe"))),
+                        _ => {
+                            cx.waker().wake_by_ref();
+                            return Poll::Pending;
+                        }
+                    }
+                }
+            }
         }
     }
     fn poll_flush(self: Pin<&mut Self>, _cx: &mut Context<'_>) -> Poll<std::io::Result<()>> {
@@ -191,6 +214,8 @@ pub fn parse_wscript(t: &mut Toks) -> PResult<VecDeque<WEv>> {
             _ => {
                 if let Some(h) = s.strip_prefix("a:") {
                     WEv::Accept(usize::from_str_radix(h, 16).map_err(|e| e.to_string())?)
+                } else if let Some(h) = s.strip_prefix("b:") {
+                    WEv::Budget(usize::from_str_radix(h, 16).map_err(|e| e.to_string())?)
                 } else if let Some(h) = s.strip_prefix("t:") {
                     WEv::Sleep(u64::from_str_radix(h, 16).map_err(|e| e.to_string())?)
                 } else {
